@@ -4,29 +4,35 @@ import ScVerif.C20.DrvVending
 /-! Driver op of the FanSpeed model: `fan.seq <presets> <init> <op>…` -/
 namespace ScVerif.C20.FanSpeed
 open ScVerif.Line
-open ScVerif.C20.Vending (parseRat? showRat)
+
+/-- float32 addition on IEEE-754 bit patterns: the `add` of the generic model, as the code's `+=` -/
+def addBits (a b : UInt32) : UInt32 := (Float32.ofBits a + Float32.ofBits b).toBits
+
+/-- a percentage travels as the decimal bit pattern of its float32 -/
+def parsePct? (s : String) : Option UInt32 :=
+  (parseNat? s).bind (fun n => if n < 4294967296 then some n.toUInt32 else none)
 
 def decStr (s : String) : String := if s = "~" then "" else unesc s
 def encStr (s : String) : String := if s = "" then "~" else esc s
 
-def parsePresets? (s : String) : Option (List Preset) :=
+def parsePresets? (s : String) : Option (List (Preset UInt32)) :=
   if s = "-" then some []
   else (s.splitOn ",").mapM (fun part =>
     match part.splitOn ":" with
-    | [n, p] => (parseRat? p).map (fun p => ⟨decStr n, p⟩)
+    | [n, p] => (parsePct? p).map (fun p => ⟨decStr n, p⟩)
     | _ => none)
 
-def parseFan? (s : String) : Option Fan :=
+def parseFan? (s : String) : Option (Fan UInt32) :=
   match s.splitOn "," with
   | [pct, preset, idx, dir] => do
-    let pct ← parseRat? pct
+    let pct ← parsePct? pct
     let idx ← parseInt? idx
     let dir ← parseInt? dir
     pure ⟨pct, decStr preset, idx, dir⟩
   | _ => none
 
-def showFan (v : Fan) : String :=
-  showRat v.pct ++ "," ++ encStr v.preset ++ "," ++ toString v.index ++ "," ++ toString v.direction
+def showFan (v : Fan UInt32) : String :=
+  toString v.pct.toNat ++ "," ++ encStr v.preset ++ "," ++ toString v.index ++ "," ++ toString v.direction
 
 def parseField? (s : String) : Option Field :=
   if s = "percentage" then some .pct
@@ -35,7 +41,7 @@ def parseField? (s : String) : Option Field :=
   else if s = "direction" then some .direction
   else none
 
-def parseReq? (s : String) : Option Request :=
+def parseReq? (s : String) : Option (Request UInt32) :=
   match s.splitOn "|" with
   | [rel, mask, fan] => do
     let rel ← if rel = "rel" then some true else if rel = "abs" then some false else none
@@ -52,12 +58,12 @@ def handle? (toks : List String) : Option String :=
     let ps ← parsePresets? ps
     let init ← parseFan? init
     let reqs ← reqs.mapM parseReq?
-    let (_, outs) := reqs.foldl (fun (acc : Fan × List String) r =>
-      let ret := match update ps acc.1 r with
+    let (_, outs) := reqs.foldl (fun (acc : Fan UInt32 × List String) r =>
+      let ret := match update addBits ps acc.1 r with
         | .ok _ => "ok"
         | .invalidArgument => "err:InvalidArgument"
         | .panic => "panic"
-      let s' := step ps acc.1 r
+      let s' := step addBits ps acc.1 r
       (s', (ret ++ "#" ++ showFan s') :: acc.2)) (init, ["init#" ++ showFan init])
     pure (";".intercalate outs.reverse)
   | _ => none
